@@ -128,6 +128,19 @@ def check_case(case) -> Result:
             "shots>=100" if shots >= 100 else "shots<100")
     r.nontrivial = bool(shots >= 100 and np.sum(q >= 0.01) >= 2)
 
+    # history: the same MPS object has been used before it is sampled (in a backend run CorrelationMatrix, Expectation,
+    # ... act on the same state object as BitStrings); none of these calls changes the represented state
+    if rep in ("mps", "mps3") and case["seed"] % 2 == 1:
+        prior = ("correlation_matrix", "orthogonalize", "entropy", "expect_batch")[(case["seed"] // 2) % 4]
+        if prior == "correlation_matrix":
+            cut(st_.get_correlation_matrix)
+        elif prior == "orthogonalize":
+            cut(st_.orthogonalize, (case["seed"] // 8) % n)
+        elif prior == "entropy":
+            cut(st_.entanglement_entropy, (case["seed"] // 8) % (n - 1))
+        else:
+            cut(st_.expect_batch, torch.eye(d, dtype=torch.complex128).unsqueeze(0))
+        r.label("used_before_sampling:" + prior)
     torch.manual_seed(case["seed"])
     random.seed(case["seed"])
     np.random.seed(case["seed"] % (2**32))
